@@ -36,6 +36,20 @@ class Unsupported(Exception):
     pass
 
 
+class Table(dict):
+    """abstract array: explicitly seeded cells hold ranks/markers, any other cell reads as a
+    marker (name, index) so that a read of the wrong cell is visible in the result"""
+
+    def __init__(self, name, cells=None):
+        super().__init__(cells or {})
+        self.name = name
+
+    def read(self, key):
+        if key in self:
+            return self[key]
+        return (self.name, key)
+
+
 class Obj:
     """abstract record: a dict of field values and the repo methods (AST) of its class;
     comparisons between records are dispatched to the *repository's* dunder methods,
@@ -89,13 +103,29 @@ def ev(n, env, funcs=None):
                 return v.fields[n.attr]
             raise Unsupported('record has no field %s' % n.attr)
         raise Unsupported('attribute %s' % txt)
+    if isinstance(n, ast.Subscript):
+        base = ev(n.value, env, funcs)
+        idx = ev(n.slice, env, funcs)
+        if isinstance(base, Table):
+            return base.read(idx)
+        if isinstance(base, (list, tuple)) and isinstance(idx, int):
+            return base[idx]
+        raise Unsupported('subscript %s' % ast.unparse(n))
     if isinstance(n, ast.Constant):
-        if isinstance(n.value, complex):
-            return n.value
         return n.value
     if isinstance(n, ast.Call):
         f = n.func
         fname = f.id if isinstance(f, ast.Name) else (f.attr if isinstance(f, ast.Attribute) else None)
+        if isinstance(f, ast.Attribute) and fname == 'append' and len(n.args) == 1:
+            tgt = ev(f.value, env, funcs)
+            if isinstance(tgt, list):
+                tgt.append(ev(n.args[0], env, funcs))
+                return None
+        if fname in ('real', 'imag') and len(n.args) == 1:
+            v = ev(n.args[0], env, funcs)
+            if isinstance(v, (int, float, complex)):
+                return complex(v).real if fname == 'real' else complex(v).imag
+            raise Unsupported('real/imag of a non-number')
         if fname == 'isinstance' and len(n.args) == 2:
             return isinstance(ev(n.args[0], env, funcs), Obj)
         args = [ev(a, env, funcs) for a in n.args]
@@ -205,6 +235,15 @@ def run_block(stmts, env, funcs=None, limit=10000):
             v = ev(s.value, env, funcs)
             for t in s.targets:
                 _bind(t, v, env)
+        elif isinstance(s, ast.AugAssign) and isinstance(s.target, ast.Subscript):
+            base = ev(s.target.value, env, funcs)
+            key = ev(s.target.slice, env, funcs)
+            if not isinstance(base, Table):
+                raise Unsupported('augmented store')
+            cur = base.read(key)
+            v = ev(s.value, env, funcs)
+            t = type(s.op)
+            base[key] = cur + v if t is ast.Add else cur - v if t is ast.Sub else cur * v
         elif isinstance(s, ast.AugAssign) and isinstance(s.target, ast.Name):
             cur = env[s.target.id]
             v = ev(s.value, env, funcs)
@@ -223,6 +262,8 @@ def run_block(stmts, env, funcs=None, limit=10000):
             pass
         elif isinstance(s, ast.Expr) and isinstance(s.value, ast.Constant):
             pass
+        elif isinstance(s, ast.Expr) and isinstance(s.value, ast.Call):
+            ev(s.value, env, funcs)
         elif isinstance(s, ast.Break):
             return ('break', None)
         elif isinstance(s, ast.Continue):
@@ -235,6 +276,11 @@ def run_block(stmts, env, funcs=None, limit=10000):
 def _bind(t, v, env):
     if isinstance(t, ast.Name):
         env[t.id] = v
+    elif isinstance(t, ast.Subscript):
+        base = ev(t.value, env)
+        if not isinstance(base, Table):
+            raise Unsupported('store into %s' % ast.unparse(t))
+        base[ev(t.slice, env)] = v
     elif isinstance(t, (ast.Tuple, ast.List)):
         for a, b in zip(t.elts, v):
             _bind(a, b, env)
